@@ -772,14 +772,14 @@ func (r *Report) tryReplay(o *Obligation, dir string, log *strings.Builder) (str
 	for _, p := range imps {
 		fmt.Fprintf(&src, "\t%q\n", p)
 	}
-	fmt.Fprintf(&src, ")\n\nfunc %s(t *testing.T) {\n", testName)
+	fmt.Fprintf(&src, ")\n\nfunc %s(zzT *testing.T) {\n", testName)
 	for _, s := range b.stmts {
 		fmt.Fprintf(&src, "\t%s\n", s)
 	}
 	for _, s := range cp.olds {
 		fmt.Fprintf(&src, "\t%s\n", s)
 	}
-	fmt.Fprintf(&src, "\tdefer func() {\n\t\tif r := recover(); r != nil {\n\t\t\tt.Fatalf(\"REPLAY-VIOLATION obligation %s: panic: %%v\", r)\n\t\t}\n\t}()\n", o.Name)
+	fmt.Fprintf(&src, "\tdefer func() {\n\t\tif zzR := recover(); zzR != nil {\n\t\t\tzzT.Fatalf(\"REPLAY-VIOLATION obligation %s: panic: %%v\", zzR)\n\t\t}\n\t}()\n", o.Name)
 	if len(resNames) > 0 {
 		fmt.Fprintf(&src, "\t%s := %s\n", strings.Join(resNames, ", "), call)
 		for _, n := range resNames {
@@ -797,7 +797,7 @@ func (r *Report) tryReplay(o *Obligation, dir string, log *strings.Builder) (str
 		fmt.Fprintf(&src, "\t%s\n", call)
 	}
 	if !safety {
-		fmt.Fprintf(&src, "\tif !(%s) {\n\t\tt.Fatalf(\"REPLAY-VIOLATION obligation %s: clause is false on the real code\")\n\t}\n", check, o.Name)
+		fmt.Fprintf(&src, "\tif !(%s) {\n\t\tzzT.Fatalf(\"REPLAY-VIOLATION obligation %s: clause is false on the real code\")\n\t}\n", check, o.Name)
 	}
 	fmt.Fprintf(&src, "}\n")
 	gopath := filepath.Join(dir, sanitize(o.Name)+"_test.go")
